@@ -84,8 +84,10 @@ func (cf encCfg) String() string {
 		cf.degree, cf.isNTT, cf.mont, cf.stale, ptNames[cf.pat], cf.dec)
 }
 
-// knownClass returns the finding signature of the leaf's input class ("" for ordinary leaves).
-func (cf encCfg) knownClass() string {
+// formerClass names the input class of a leaf on which the tree USED to violate the property (all fixed
+// in /repo, see known_findings.txt `fixed:` lines). The classes are judged like any other leaf, with the
+// generic signatures; the names only label the regression leaves of known/enc/* in the coverage.
+func (cf encCfg) formerClass() string {
 	p := cf.params
 	switch {
 	case cf.pk && cf.degree == 0:
@@ -211,7 +213,7 @@ func knownEncScenario(rt ring.Type, logN int, ch rk.Chain, np int) engine.Scenar
 		if cf.entry == entEncryptZero || cf.entry == entEncryptZeroNew {
 			cf.pat = 1
 		}
-		if k := cf.knownClass(); k != "" {
+		if k := cf.formerClass(); k != "" {
 			c.Cover("known-class", k)
 		} else {
 			c.Cover("known-class", "none(control)")
@@ -284,7 +286,7 @@ func runEnc(c *engine.Chooser, name string, cf encCfg) {
 	rt := p.RingType()
 	rQ := p.RingQ()
 	n := p.N()
-	known := cf.knownClass()
+	known := "" // no listed finding left: every class is judged under the generic signatures
 	gen := "C03/encrypt/" + cf.keyName() + "/"
 	sig := func(clause string) string {
 		if known != "" {
